@@ -1,6 +1,47 @@
-import YncaVerif.Model.Conn
-/-! # C16 — (statements over the L4 model; under construction) -/
+import YncaVerif.Lemmas.C16
+/-! # C16 — close() is safe at any time, from any thread, any number of times (L4 model) -/
 namespace Ynca.C16
 open Ynca.L4
-theorem C16_model_initial_state : run ⟨100000, 30000000, 2000000, 1000000, 0⟩ {} [] = some {} := rfl
+
+/-- **never raises**: no step of any close() (on a caller thread or on the reader thread) raises -/
+theorem C16_never_raises (P : Params) (s s' : St) (l : Label) (o : Obs) (t : Tid)
+    (h : step P s l = some (s', some o)) : o ≠ .closeRaised t :=
+  close_never_raises P s s' l o t h
+
+/-- **accepted in every state by every thread that may call the API** -/
+theorem C16_always_accepted (P : Params) (s : St) (t : Tid) (h : mayCall s t = true) :
+    (step P s (.callClose t)).isSome = true :=
+  close_accepted P s t h
+
+/-- once some close() has begun, the disconnect callback is cleared for good -/
+theorem C16_callback_cleared (P : Params) (s : St) (h : Reachable P s) (hc : s.closeStarted = true) :
+    s.discCbSet = false :=
+  close_clears_callback P s h hc
+
+/-- **no disconnect callback** is ever started while it is cleared -/
+theorem C16_no_disc_cb (P : Params) (s s' : St) (l : Label) (o : Obs) (hc : s.discCbSet = false)
+    (h : step P s l = some (s', some o)) : o ≠ .discCb :=
+  no_disc_when_cleared P s s' l o hc h
+
+/-- **after it has returned** the transport is closed and the reader has been told to stop -/
+theorem C16_after_return (P : Params) (s : St) (h : Reachable P s) (hr : s.closeReturned = true) :
+    s.portOpen = false ∧ s.alive = false :=
+  after_close_return P s h hr
+
+/-- **nothing more is written**: with the port closed no write is accepted by the transport -/
+theorem C16_no_write_when_closed (P : Params) (s s' : St) (l : Label) (o : Obs) (t : String)
+    (hp : s.portOpen = false) (h : step P s l = some (s', some o)) : o ≠ .write t :=
+  no_write_when_closed P s s' l o t hp h
+
+/-- the port never reopens -/
+theorem C16_port_stays_closed (P : Params) (s s' : St) (l : Label) (o : Option Obs)
+    (hp : s.portOpen = false) (h : step P s l = some (s', o)) : s'.portOpen = false :=
+  port_stays_closed P s s' l o hp h
+
+/-- close() on the reader thread forgets every message callback before it returns, so no message callback
+    is started afterwards -/
+theorem C16_reader_close_stops_delivery (P : Params) (s s' : St) (l : Label) (cb : Nat) (m : Msg)
+    (hc : s.msgCbs = []) (h : step P s l = some (s', some (.msgCb cb m))) : False :=
+  no_msgcb_without_callbacks P s s' l cb m hc h
+
 end Ynca.C16
